@@ -303,7 +303,16 @@ func (ci *ConstructorInvoker) InvokeFunc(
 	// Check for error return
 	if info.HasErrorReturn && len(results) > 0 {
 		lastResult := results[len(results)-1]
-		if !lastResult.IsNil() {
+
+		// The declared type only has to implement error: a value of a kind that
+		// cannot be nil (a struct with a value receiver) is always an error
+		failed := true
+		switch lastResult.Kind() {
+		case reflect.Interface, reflect.Pointer, reflect.Map, reflect.Slice, reflect.Chan, reflect.Func:
+			failed = !lastResult.IsNil()
+		}
+
+		if failed {
 			if err, ok := lastResult.Interface().(error); ok {
 				return nil, fmt.Errorf("constructor error: %w", err)
 			}
